@@ -474,6 +474,11 @@ static int ec_edit(char *loc, char *cmd, char *arg, char *txt)
 			return ex_command(pls + 1);
 		return 0;
 	}
+	/* when the table is full, the last slot is reused: not if it is modified */
+	if ((path[0] || !bufs[0].path) && !strchr(cmd, '!') && !xwa &&
+			bufs[bufs_findroom()].lb &&
+			bufs_modified(bufs_findroom(), "buffer modified"))
+		return 1;
 	if (path[0] || !bufs[0].path)
 		bufs_switch(bufs_open(path));
 	fd = open(ex_path(), O_RDONLY);
